@@ -115,18 +115,98 @@ func longRuns(c *corr.Ctx) {
 		} else {
 			first = cu.Frame{randBytes(r, n*(max-2)+1), randBytes(r, 1+r.IntN(5))} // length-prefixed fragments
 		}
-		cu.RoundTrip(c, Av1, cu.EncParams{PT: 96, SSRC: r.Uint32(), Seq0: seq0, Max: max}, func(*cu.Instance) []cu.Frame {
-			return []cu.Frame{first, {randBytes(r, 1+r.IntN(4)), randBytes(r, 1+r.IntN(4))}, {randBytes(r, 300*(max-1))}}
-		}, fmt.Sprintf("av1-longrun-%d", i))
+		av1Frames := []cu.Frame{first, {randBytes(r, 1+r.IntN(4)), randBytes(r, 1+r.IntN(4))}, {randBytes(r, 300*(max-1))}}
+		if huge {
+			// the Lean models append to packet / fragment lists (quadratic): the > 65536-packet runs are judged
+			// by the property oracle on the real code only
+			hugeRun(c, Av1, cu.EncParams{PT: 96, SSRC: r.Uint32(), Seq0: seq0, Max: max}, av1Frames, fmt.Sprintf("av1-longrun-%d", i))
+		} else {
+			cu.RoundTrip(c, Av1, cu.EncParams{PT: 96, SSRC: r.Uint32(), Seq0: seq0, Max: max}, func(*cu.Instance) []cu.Frame {
+				return av1Frames
+			}, fmt.Sprintf("av1-longrun-%d", i))
+		}
 		// VP8, limit 2 (or 3): 1 (2) bytes per packet
 		vmax := 2 + r.IntN(2)
-		cu.RoundTrip(c, Vp8, cu.EncParams{PT: 96, SSRC: r.Uint32(), Seq0: seq0, Max: vmax}, func(*cu.Instance) []cu.Frame {
-			return []cu.Frame{{randBytes(r, n*(vmax-1)-r.IntN(vmax-1))}, {randBytes(r, 1+r.IntN(3*vmax))}, {randBytes(r, 300*(vmax-1))}}
-		}, fmt.Sprintf("vp8-longrun-%d", i))
+		vp8Frames := []cu.Frame{{randBytes(r, n*(vmax-1)-r.IntN(vmax-1))}, {randBytes(r, 1+r.IntN(3*vmax))}, {randBytes(r, 300*(vmax-1))}}
+		if huge {
+			hugeRun(c, Vp8, cu.EncParams{PT: 96, SSRC: r.Uint32(), Seq0: seq0, Max: vmax}, vp8Frames, fmt.Sprintf("vp8-longrun-%d", i))
+		} else {
+			cu.RoundTrip(c, Vp8, cu.EncParams{PT: 96, SSRC: r.Uint32(), Seq0: seq0, Max: vmax}, func(*cu.Instance) []cu.Frame { return vp8Frames },
+				fmt.Sprintf("vp8-longrun-%d", i))
+		}
 		// VP9, limit 12: 9 bytes per packet (1 in the first packet of a key frame)
-		cu.RoundTrip(c, Vp9, cu.EncParams{PT: 96, SSRC: r.Uint32(), Seq0: seq0, Max: 12}, func(*cu.Instance) []cu.Frame {
-			mk := func(k int) []byte { h := vp9GenHeader(r); return append(h, randBytes(r, k)...) }
-			return []cu.Frame{{mk(n * 9)}, {mk(1 + r.IntN(30))}, {mk(300 * 9)}}
-		}, fmt.Sprintf("vp9-longrun-%d", i))
+		mk := func(k int) []byte { h := vp9GenHeader(r); return append(h, randBytes(r, k)...) }
+		vp9Frames := []cu.Frame{{mk(n * 9)}, {mk(1 + r.IntN(30))}, {mk(300 * 9)}}
+		if huge {
+			hugeRun(c, Vp9, cu.EncParams{PT: 96, SSRC: r.Uint32(), Seq0: seq0, Max: 12}, vp9Frames, fmt.Sprintf("vp9-longrun-%d", i))
+		} else {
+			cu.RoundTrip(c, Vp9, cu.EncParams{PT: 96, SSRC: r.Uint32(), Seq0: seq0, Max: 12}, func(*cu.Instance) []cu.Frame { return vp9Frames },
+				fmt.Sprintf("vp9-longrun-%d", i))
+		}
 	}
+}
+
+// hugeRun: C03 / C06 clauses on the real encoder / decoder of `sp` for a series of Encode calls, without
+// the model (used for > 65536 packets in one call).
+func hugeRun(c *corr.Ctx, sp *cu.Spec, p cu.EncParams, frames []cu.Frame, name string) {
+	inst, err := sp.New(c.Rng, p)
+	if err != nil {
+		return
+	}
+	viol := func(prop, clause, key, detail string) {
+		c.Violate(corr.Violation{Property: prop, Clause: clause, Key: sp.Name + "-" + key, Where: "pkg/format/rtp" + sp.Name,
+			Input: map[string]any{"mode": "huge", "codec": sp.Name, "params": p, "sizes": func() (o [][]int) {
+				for _, f := range frames {
+					var l []int
+					for _, u := range f {
+						l = append(l, len(u))
+					}
+					o = append(o, l)
+				}
+				return
+			}()}, Detail: detail})
+	}
+	d := inst.NewDec()
+	next := p.Seq0
+	for fi, f := range frames {
+		pk, err := inst.Enc.Encode(f)
+		if err != nil {
+			viol("C03", "encoder accepts every valid frame", "enc-error", fmt.Sprintf("frame %d rejected", fi))
+			return
+		}
+		c.Dist(fmt.Sprintf(sp.Name+".huge-run-pkts>=%d", 1<<(bitsLen(len(pk))-1)))
+		var got cu.Frame
+		for i, q := range pk {
+			if q.SequenceNumber != next {
+				viol("C06", "sequence numbers increase by exactly one modulo 2^16 from the initial value", "enc-seq",
+					fmt.Sprintf("frame %d packet %d of %d: seq %d, expected %d", fi, i, len(pk), q.SequenceNumber, next))
+				return
+			}
+			next++
+			if len(q.Payload) > p.Max || q.Marker != (i == len(pk)-1) {
+				viol("C06", "payload no larger than the configured maximum / marker on the completing packet only", "enc-size", fmt.Sprintf("frame %d packet %d", fi, i))
+				return
+			}
+			out, derr := d.Decode(q)
+			if i < len(pk)-1 && sp.Classify(derr) != "more" {
+				viol("C03", "'more packets needed' before the completing packet", "roundtrip-early", fmt.Sprintf("frame %d packet %d/%d", fi, i, len(pk)))
+				return
+			}
+			if i == len(pk)-1 {
+				got = out
+			}
+		}
+		if !frameEq(got, f) {
+			viol("C03", "decoding the encoder's packets returns the original frame", "roundtrip", fmt.Sprintf("frame %d: %d units out", fi, len(got)))
+		}
+	}
+	c.CountOnly(name+fmt.Sprint(p), true)
+}
+
+func bitsLen(n int) int {
+	k := 0
+	for ; n > 0; n >>= 1 {
+		k++
+	}
+	return k
 }
